@@ -237,10 +237,10 @@ def carried_channels(repo: Repo, eff: Effects, f: Func, loop: ast.For, cls: Opti
             for k, _, node in events
         )
         skip_ids = {id(x) for _, _, node in events for x in ast.walk(node) if isinstance(node, ast.Subscript)}
-        reads = _reads_of(name, loop, skip_ids)
-        if append_only and reads <= {"len", "last", "call-arg-append"}:
+        reads = _reads_of(name, loop, skip_ids, induction)
+        if append_only and reads <= {"len", "last", "call-arg-append", "meta"}:
             allowed.append("append-only accumulator `%s`" % name)
-        elif indexed_store and not (reads - {"len", "last"}):
+        elif indexed_store and not (reads - {"len", "last", "indexed", "meta"}):
             allowed.append("`%s[...]` stored at positions indexed by the induction variable" % name)
         elif name.startswith("self.") and fit_path:
             allowed.append("fitted state under construction `%s` (fit path)" % name)
@@ -250,7 +250,7 @@ def carried_channels(repo: Repo, eff: Effects, f: Func, loop: ast.For, cls: Opti
     return channels, allowed
 
 
-def _reads_of(name: str, loop: ast.For, skip_ids: Set[int] = frozenset()) -> Set[str]:
+def _reads_of(name: str, loop: ast.For, skip_ids: Set[int] = frozenset(), induction: Set[str] = frozenset()) -> Set[str]:
     """How is `name` read inside the loop: 'len', 'last' (name[-1]), or 'other'."""
     parents: Dict[int, ast.AST] = {}
     for n in ast.walk(loop):
@@ -273,6 +273,11 @@ def _reads_of(name: str, loop: ast.For, skip_ids: Set[int] = frozenset()) -> Set
             continue  # the mutation itself
         elif isinstance(p, ast.Subscript) and p.value is n and isinstance(p.ctx, (ast.Store, ast.Del)):
             continue
+        elif isinstance(p, ast.Attribute) and p.value is n and p.attr in ("shape", "size", "ndim", "dtype"):
+            out.add("meta")  # the shape of an output buffer does not depend on what rows wrote into it
+        elif isinstance(p, ast.Subscript) and p.value is n and isinstance(p.ctx, ast.Load) \
+                and ({x.id for x in ast.walk(p.slice) if isinstance(x, ast.Name)} & set(induction)):
+            out.add("indexed")  # reads the position this iteration owns
         elif isinstance(p, ast.Subscript) and p.value is n and isinstance(parents.get(id(p)), ast.AugAssign) and parents[id(p)].target is p:
             out.add("other")
         else:
